@@ -4,12 +4,14 @@
        effect is a regressed formula);
      * the abstract monitor the compilation implements decides the PDDL3 semantics of all five operators.
      * the PLAN-LEVEL verdict equation for problems whose constraints are all `always phi` ([C06_LA_tcr_always_plan]).
-   NOT proved (kept as [C06_LA_tcr_plan_goal]): the plan-level verdict equation for the other four operators (needs the
+     * the PLAN-LEVEL verdict equation for ONE `sometime phi` constraint with its monitoring fluent ([C06_LA_tcr_sometime_plan]).
+   NOT proved (kept as [C06_LA_tcr_plan_goal]): the plan-level verdict equation for at-most-once / sometime-before /
+   sometime-after and for several constraints at once (needs the
    embedding of the monitor into problems with the extra monitoring fluents). *)
 From Coq Require Import List ZArith NArith QArith Qcanon Bool.
 Import ListNotations.
 Require Import UPV.Core.Expr UPV.Core.Eval UPV.Core.Interp UPV.Planning.Problem UPV.Planning.Sem.
-Require Import UPV.Compilers.LayerA_Defs UPV.Compilers.LayerA_Quant UPV.Compilers.SimCheck UPV.Compilers.LayerA_Tcr.
+Require Import UPV.Compilers.LayerA_Defs UPV.Compilers.LayerA_Quant UPV.Compilers.SimCheck UPV.Compilers.LayerA_DcrGoal UPV.Compilers.LayerA_Tcr.
 Require Import UPV.Proofs.LayerA_base UPV.Proofs.LayerA_Tcr_proofs.
 Local Open Scope nat_scope.
 
@@ -199,6 +201,93 @@ Proof.
   - reflexivity.
   - reflexivity.
   - reflexivity.
+Qed.
+
+(* PLAN LEVEL for one `sometime phi` constraint.  fk = mon 0 is the monitoring fluent "hold-0".  Hypotheses as in
+   C06_LA_tcr_always_plan, plus [tcr_fresh1]: fk is fresh (no action / invariant / bounded-type constraint / goal of P, nor
+   phi or a simplified regression of phi, mentions it - decidable; the compiler takes the name without checking).  The
+   compiled initial state s0' agrees with s0 off fk and has fk = "phi holds in s0" (this is what [tcr_init] builds, see
+   C06_LA_tcr_sometime_init).  Then the compiled problem - no trajectory constraint; one more Boolean fluent; the actions
+   that touch phi got the conditional effect `if simplify(regress phi a) then fk := true`; the goal got the conjunct fk -
+   accepts exactly the plans that are valid for P and along which phi holds in some visited state ([sometime_seen]).
+   Invariant of the proof: compiled and original state agree off fk, and fk = "phi held in some state so far". *)
+Theorem C06_LA_tcr_sometime_plan :
+  forall (smp sub0 : expr -> expr) (mon : nat -> N) (phi : expr) (P : problem) (G : state -> Prop),
+    smp_exact smp -> unique_ids P -> gproblem P = true -> gform phi = true -> gbool P phi = true ->
+    tcr_fresh1 smp (mon 0) P phi = true ->
+    (forall s aid a args t, G s -> lookup_action P aid = Some a -> spec_step false P s a args = Some t -> G t) ->
+    (forall s aid a, G s -> lookup_action P aid = Some a -> reg_ok P s a = true) ->
+    (forall s, G s -> gdef s phi = true) ->
+    forall P', tcr_compile smp sub0 mon [ESometime phi] P = Some P' ->
+    forall s0 s0' pi, G s0 -> agree_off (mon 0) s0 s0' ->
+      s0' (mon 0) [] = Some (VBool (holds false (mk_interp P s0 []) phi)) ->
+      valid_plan false P' s0' pi = valid_plan false P s0 pi && sometime_seen P phi s0 pi.
+Proof.
+  intros smp sub0 mon phi P G H1 H2 H3 H4 H5 H6 H7 H8 H9 P1 H10 s0 s0' pi H11 H12 H13.
+  exact (tcr_sometime_plan smp sub0 mon phi P G H1 H2 H3 H4 H5 H6 H7 H8 H9 P1 H10 s0 s0' pi H11 H12 H13).
+Qed.
+Print Assumptions C06_LA_tcr_sometime_plan.
+
+(* the initial state the compiler builds satisfies the two conditions on s0', provided the initial evaluation is exact:
+   `phi.substitute(initial_values).simplify()` is TRUE exactly when phi holds in s0 *)
+Theorem C06_LA_tcr_sometime_init :
+  forall (smp sub0 : expr -> expr) (mon : nat -> N) (phi : expr) (P : problem) (s0 : state),
+    is_true (smp (sub0 phi)) = holds false (mk_interp P s0 []) phi ->
+    agree_off (mon 0) s0 (tcr_init smp sub0 mon [ESometime phi] s0) /\
+    tcr_init smp sub0 mon [ESometime phi] s0 (mon 0) [] = Some (VBool (holds false (mk_interp P s0 []) phi)).
+Proof. exact tcr_init_sometime. Qed.
+Print Assumptions C06_LA_tcr_sometime_init.
+
+Module TcrSome.
+  Definition bfd (f : N) : fdecl := {| fd_id := f; fd_sig := []; fd_ty := FBool |}.
+  Definition fl0 (f : N) : expr := EFluent f [].
+  Definition setf (f : N) (b : bool) : action :=
+    {| a_params := []; a_pre := [];
+       a_effs := [{| e_fl := f; e_args := []; e_val := EBool b; e_cond := EBool true; e_kind := KAssign; e_vars := [];
+                     e_isbool := true |}] |}.
+  (* fluents f (0) and h (1); action 0 switches f on, action 1 reaches the goal h; constraint sometime f; f false initially *)
+  Definition P0 : problem :=
+    {| p_objs := []; p_ifun := []; p_fluents := [bfd 0; bfd 1]; p_actions := [(0%N, setf 0 true); (1%N, setf 1 true)];
+       p_goals := [fl0 1]; p_invs := [] |}.
+  Definition idf (e : expr) : expr := e.
+  Definition mon0 (k : nat) : N := 9%N.
+  Definition s0 : state := fun f _ => Some (VBool false).
+  Definition s0' : state := tcr_init idf idf mon0 [ESometime (fl0 0)] s0.
+  Definition P0' : problem := match tcr_compile idf idf mon0 [ESometime (fl0 0)] P0 with Some x => x | None => P0 end.
+  Definition G0 (s : state) : Prop := gdef s (fl0 0) = true.
+End TcrSome.
+
+Example C06_LA_tcr_sometime_plan_nonvacuous :
+  (forall pi, valid_plan false TcrSome.P0' TcrSome.s0' pi =
+              valid_plan false TcrSome.P0 TcrSome.s0 pi && sometime_seen TcrSome.P0 (TcrSome.fl0 0) TcrSome.s0 pi) /\
+  valid_plan false TcrSome.P0 TcrSome.s0 [(1%N, [])] = true /\
+  valid_plan false TcrSome.P0' TcrSome.s0' [(1%N, [])] = false /\
+  valid_plan false TcrSome.P0' TcrSome.s0' [(0%N, []); (1%N, [])] = true.
+Proof.
+  split; [|repeat split; vm_compute; reflexivity].
+  intros pi.
+  assert (Hact : forall aid a, lookup_action TcrSome.P0 aid = Some a -> a = TcrSome.setf 0 true \/ a = TcrSome.setf 1 true).
+  { intros aid a H. unfold lookup_action in H. cbn [TcrSome.P0 p_actions lookupN] in H.
+    destruct (aid =? 0)%N; [inversion H; auto|]. destruct (aid =? 1)%N; [inversion H; auto | discriminate]. }
+  destruct (C06_LA_tcr_sometime_init TcrSome.idf TcrSome.idf TcrSome.mon0 (TcrSome.fl0 0) TcrSome.P0 TcrSome.s0 eq_refl) as [I1 I2].
+  apply (C06_LA_tcr_sometime_plan TcrSome.idf TcrSome.idf TcrSome.mon0 (TcrSome.fl0 0) TcrSome.P0 TcrSome.G0).
+  - intros e I. reflexivity.
+  - unfold unique_ids. cbn. repeat constructor; cbn; intuition discriminate.
+  - reflexivity.
+  - reflexivity.
+  - reflexivity.
+  - vm_compute. reflexivity.
+  - intros s aid a args t Gs Hlk Hst.
+    assert (Hga : gaction TcrSome.P0 a = true) by (destruct (Hact aid a Hlk) as [-> | ->]; reflexivity).
+    assert (Hrg : reg_ok TcrSome.P0 s a = true) by (destruct (Hact aid a Hlk) as [-> | ->]; reflexivity).
+    destruct (regression_step TcrSome.P0 s a args t (TcrSome.fl0 0) Hga Hrg Hst eq_refl eq_refl Gs) as (_ & _ & D).
+    unfold TcrSome.G0. unfold isB in D. cbn in D. cbn. exact D.
+  - intros s aid a _ Hlk. destruct (Hact aid a Hlk) as [-> | ->]; reflexivity.
+  - intros s Gs. exact Gs.
+  - reflexivity.
+  - reflexivity.
+  - exact I1.
+  - exact I2.
 Qed.
 
 (* ---------------------------------------------------------------- the open part *)
